@@ -1,100 +1,57 @@
 (* C25 — Filer HTTP writes store exactly the request body.
    Only statements closed by [exact]; proofs live in proof/FilerWriteProofs.v.
 
-   The model (model/FilerWrite.v) is parametric in the chunk size, the inline
-   limit, the body and the md5 function; every theorem below holds for all of
-   them (so also for the 1 MiB multiples the real autoChunk produces).
-   [read_entry] is the reference reader (inline content, else the chunks painted
-   in order over max(FileSize, extent) zero bytes); [existing rq pre] is the
-   entry saveMetaData merges into (pre when op=append, else none).
-
-   Four statements of the property are FALSE for the code as it is (confirmed on
-   the real handlers, see checks/C25.json): each has a [_refuted] theorem with a
-   concrete witness and a [_partial] theorem under a decidable trigger. *)
+   The model (model/FilerWrite.v, the code after the four C25 repairs) is
+   parametric in the chunk size, the inline limit, the body and the md5 function;
+   every theorem below holds for all of them (so also for the 1 MiB multiples the
+   real autoChunk produces).  [read_entry] is the reference reader (inline
+   content, else the chunks painted in order over max(FileSize, extent) zero
+   bytes); [file_end] is that length; [existing rq pre] is the entry
+   saveMetaData merges into (pre when op=append, else none). *)
 From Coq Require Import List NArith ZArith Bool.
 From SW Require Import model.FilerWrite proof.FilerWriteProofs.
 Import ListNotations.
 
 (* ------------------------------------------------------------------ *)
-(* 1. a PUT/POST stores exactly the body (inline or chunked, any chunk size >= 1, any limit) *)
-
-(* full statement: refuted — saveToFilerLimit (4) above the chunk size (2), body
-   of 3 bytes: the first chunk is inlined, the loop stops, 201 *)
-Theorem c25_stored_equals_body_refuted : exists md5 rq pre e,
-  rq_method rq <> PostRaw /\ (1 <= rq_cs rq)%Z /\ rq_end rq = Eof /\ no_upfail (rq_upfail rq) /\
-  existing rq pre = None /\
-  handle_write md5 rq pre = (Created, Some e) /\ read_entry e <> rq_body rq.
-Proof. exact stored_equals_body_refuted. Qed.
-Print Assumptions c25_stored_equals_body_refuted.
-
-(* ... and so does any path under /etc, with the default limit 0 *)
-Theorem c25_stored_equals_body_refuted_etc : exists md5 rq pre e,
-  rq_method rq <> PostRaw /\ (1 <= rq_cs rq)%Z /\ rq_end rq = Eof /\ no_upfail (rq_upfail rq) /\
-  existing rq pre = None /\ rq_limit rq = 0%Z /\
-  handle_write md5 rq pre = (Created, Some e) /\ read_entry e <> rq_body rq.
-Proof. exact stored_equals_body_refuted_etc. Qed.
-Print Assumptions c25_stored_equals_body_refuted_etc.
-
-(* partial: outside the trigger (inlining possible AND body longer than one chunk):
-   every body, every chunk size >= 1, every limit, replacing any previous entry *)
-Theorem c25_stored_equals_body_partial : forall md5 rq pre,
+(* 1. a PUT/POST stores exactly the body: inline or chunked, EVERY chunk size >= 1,
+      EVERY inline limit, /etc or not, replacing any previous entry (full) *)
+Theorem c25_stored_equals_body : forall md5 rq pre,
   rq_method rq <> PostRaw -> (1 <= rq_cs rq)%Z -> rq_end rq = Eof -> no_upfail (rq_upfail rq) ->
   existing rq pre = None ->
-  inline_trunc_trigger rq = false ->
   exists e, handle_write md5 rq pre = (Created, Some e) /\
             read_entry e = rq_body rq /\
             e_size e = N.of_nat (length (rq_body rq)) /\
             e_md5 e = Some (md5 (rq_body rq)).
 Proof. exact stored_equals_body. Qed.
-Print Assumptions c25_stored_equals_body_partial.
+Print Assumptions c25_stored_equals_body.
 
-(* "at any chunk size": the chunk size autoChunk computes is the requested number
-   of MiB only for 1..2047; maxMB=2048 wraps to -2^31 and the body is dropped with 201 *)
-Theorem c25_chunk_size_refuted : exists md5 q opt body e,
-  handle_write md5 (mk_rq Put false false (chunk_size_of q opt) 0 body Eof []) None = (Created, Some e) /\
-  body <> [] /\ read_entry e = [].
-Proof. exact chunk_size_refuted. Qed.
-Print Assumptions c25_chunk_size_refuted.
+(* "at any chunk size": whenever autoChunk lets a request through, its int32 chunk
+   size is the requested number of MiB, at least 1 and not wrapped (full) *)
+Theorem c25_chunk_size : forall q opt cs,
+  auto_chunk_size q opt = Some cs ->
+  (exists m, 1 <= m <= 2047 /\ cs = 1048576 * m /\ 1 <= cs)%Z.
+Proof. exact auto_chunk_size_ok. Qed.
+Print Assumptions c25_chunk_size.
 
-Theorem c25_chunk_size_partial : forall q opt,
-  ((1 <= q <= 2047 -> chunk_size_of q opt = 1048576 * q) /\
-   (q = 0 -> 1 <= opt <= 2047 -> chunk_size_of q opt = 1048576 * opt))%Z.
-Proof. exact chunk_size_ok. Qed.
-Print Assumptions c25_chunk_size_partial.
-
-(* what happens for every chunk size <= 0 *)
-Theorem c25_nonpositive_chunk_size : forall md5 rq pre,
-  rq_method rq <> PostRaw -> (rq_cs rq <= 0)%Z -> existing rq pre = None ->
-  handle_write md5 rq pre =
-    (Created, Some {| e_size := 0; e_content := []; e_chunks := []; e_md5 := Some (md5 []) |}).
-Proof. exact nonpositive_chunk_size_stores_nothing. Qed.
-Print Assumptions c25_nonpositive_chunk_size.
+(* ... and every maxMB in 1..2047 (query, or option when the query is absent) is accepted *)
+Theorem c25_chunk_size_accepts : forall q opt,
+  ((1 <= q <= 2047 -> auto_chunk_size q opt = Some (1048576 * q)) /\
+   (q = 0 -> 1 <= opt <= 2047 -> auto_chunk_size q opt = Some (1048576 * opt)))%Z.
+Proof. exact auto_chunk_size_accepts. Qed.
+Print Assumptions c25_chunk_size_accepts.
 
 (* ------------------------------------------------------------------ *)
-(* 2. an append places the new bytes immediately after the current end of the file *)
-
-(* full statement: refuted — an entry with chunk [0,3) and FileSize attribute 0
-   (as S3 multipart completion and other gRPC writers create): the appended byte
-   lands at offset 0 *)
-Theorem c25_append_at_end_refuted : exists md5 rq e0 e1,
-  rq_method rq <> PostRaw /\ (1 <= rq_cs rq)%Z /\ rq_end rq = Eof /\ no_upfail (rq_upfail rq) /\
-  rq_append rq = true /\ e_content e0 = [] /\ wf_entry e0 /\
-  handle_write md5 rq (Some e0) = (Created, Some e1) /\
-  read_entry e1 <> read_entry e0 ++ rq_body rq.
-Proof. exact append_at_end_refuted. Qed.
-Print Assumptions c25_append_at_end_refuted.
-
-(* partial: whenever the FileSize attribute is not below the extent of the chunks *)
-Theorem c25_append_at_end_partial : forall md5 rq e0,
+(* 2. an append places the new bytes immediately after the current end of the
+      file, whatever the FileSize attribute of the existing chunked entry (full) *)
+Theorem c25_append_at_end : forall md5 rq e0,
   rq_method rq <> PostRaw -> (1 <= rq_cs rq)%Z -> rq_end rq = Eof -> no_upfail (rq_upfail rq) ->
   rq_append rq = true -> e_content e0 = [] -> wf_entry e0 ->
-  append_trigger rq (Some e0) = false ->
   exists e1, handle_write md5 rq (Some e0) = (Created, Some e1) /\
              read_entry e1 = read_entry e0 ++ rq_body rq /\
-             e_size e1 = (e_size e0 + N.of_nat (length (rq_body rq)))%N /\
-             file_end e1 = (file_end e0 + N.of_nat (length (rq_body rq)))%N.
+             file_end e1 = (file_end e0 + N.of_nat (length (rq_body rq)))%N /\
+             e_size e1 = file_end e1.
 Proof. exact append_at_end. Qed.
-Print Assumptions c25_append_at_end_partial.
+Print Assumptions c25_append_at_end.
 
 (* an append to an entry with inline content is refused and changes nothing (full) *)
 Theorem c25_append_inline_refused : forall md5 rq e0 pre,
@@ -104,23 +61,14 @@ Proof. exact append_inline_refused. Qed.
 Print Assumptions c25_append_inline_refused.
 
 (* ------------------------------------------------------------------ *)
-(* 3. a request whose body fails part-way is reported as failed and nothing is committed *)
-
-(* full statement: refuted — the reader fails after 3 bytes, chunk size 2: the
-   first chunk is committed and the answer is 201 *)
-Theorem c25_fail_no_commit_refuted : exists md5 rq pre e,
-  request_fails rq = true /\ handle_write md5 rq pre = (Created, Some e) /\
-  read_entry e = [1;2]%N.
-Proof. exact fail_no_commit_refuted. Qed.
-Print Assumptions c25_fail_no_commit_refuted.
-
-(* partial: every failure other than a body read error (i.e. an upload/assign
-   failure of any chunk) is reported and commits nothing *)
-Theorem c25_fail_no_commit_partial : forall md5 rq pre,
-  read_err_trigger rq = false -> request_fails rq = true ->
+(* 3. a request whose body fails part-way (the reader fails at any offset, with or
+      without data in the failing Read) or one of whose uploads fails is reported
+      as failed and nothing is committed (full) *)
+Theorem c25_fail_no_commit : forall md5 rq pre,
+  (1 <= rq_cs rq)%Z -> request_fails rq = true ->
   handle_write md5 rq pre = (Failed, pre).
-Proof. exact fail_no_commit_partial. Qed.
-Print Assumptions c25_fail_no_commit_partial.
+Proof. exact fail_no_commit. Qed.
+Print Assumptions c25_fail_no_commit.
 
 (* the failure of any chunk that is reached is noticed (full) *)
 Theorem c25_upload_failure_detected : forall md5 rq pre j,
@@ -139,20 +87,6 @@ Theorem c25_nonsuccess_no_commit : forall md5 rq pre st post,
 Proof. exact nonsuccess_no_commit. Qed.
 Print Assumptions c25_nonsuccess_no_commit.
 
-(* the exact shape of the defect: a failing body is committed as a chunk-rounded
-   prefix (at most one chunk short) with 201 *)
-Theorem c25_read_error_commits_prefix : forall md5 rq pre,
-  rq_method rq <> PostRaw -> (1 <= rq_cs rq)%Z -> is_err (rq_end rq) = true ->
-  no_upfail (rq_upfail rq) -> existing rq pre = None ->
-  rq_append rq = true \/
-  inline_cond (rq_cs rq) (rq_limit rq) (rq_etc rq) (length (rq_body rq)) = false ->
-  exists e n k, handle_write md5 rq pre = (Created, Some e) /\
-                read_entry e = firstn n (rq_body rq) /\ e_size e = N.of_nat n /\
-                (n = k * Z.to_nat (rq_cs rq))%nat /\ (n <= length (rq_body rq))%nat /\
-                (length (rq_body rq) - n <= Z.to_nat (rq_cs rq))%nat.
-Proof. exact read_error_commits_prefix. Qed.
-Print Assumptions c25_read_error_commits_prefix.
-
 (* ------------------------------------------------------------------ *)
 (* the length-level plan used for the 1 MiB cases is the shape of the byte-level model *)
 Theorem c25_plan_is_shape : forall cs limit inl etc bytes e upfail,
@@ -162,13 +96,13 @@ Proof. exact shape_upload. Qed.
 Print Assumptions c25_plan_is_shape.
 
 (* ------------------------------------------------------------------ *)
-(* non-vacuity: the hypotheses of the partial theorems hold on concrete non-trivial inputs *)
+(* non-vacuity, and the inputs on which the unrepaired code failed *)
 
 (* 7 bytes, chunk size 3, limit 2: three chunks 3+3+1 *)
 Example c25_example_chunked :
   let rq := mk_rq PostForm false false 3 2 [1;2;3;4;5;6;7]%N Eof [false;false;false] in
   rq_method rq <> PostRaw /\ (1 <= rq_cs rq)%Z /\ rq_end rq = Eof /\ no_upfail (rq_upfail rq) /\
-  existing rq None = None /\ inline_trunc_trigger rq = false /\
+  existing rq None = None /\
   handle_write (fun l => N.of_nat (length l)) rq None =
     (Created, Some {| e_size := 7; e_content := [];
                       e_chunks := [Ck 0 3 [1;2;3]; Ck 3 3 [4;5;6]; Ck 6 1 [7]]%N; e_md5 := Some 7%N |}).
@@ -177,23 +111,47 @@ Proof. exact example_chunked. Qed.
 (* 2 bytes below the limit 5, chunk size 4: inline *)
 Example c25_example_inline :
   let rq := mk_rq Put false false 4 5 [8;9]%N Eof [] in
-  inline_trunc_trigger rq = false /\
   handle_write (fun l => N.of_nat (length l)) rq None =
     (Created, Some {| e_size := 2; e_content := [8;9]%N; e_chunks := []; e_md5 := Some 2%N |}).
 Proof. exact example_inline. Qed.
 
-(* append of 3 bytes (chunk size 2) to a 4-byte chunked file whose FileSize agrees *)
-Example c25_example_append :
-  let e0 := {| e_size := 4; e_content := []; e_chunks := [Ck 0 4 [1;2;3;4]%N]; e_md5 := None |} in
-  let rq := mk_rq Put true false 2 0 [5;6;7]%N Eof [] in
-  append_trigger rq (Some e0) = false /\ wf_entry e0 /\
+(* limit 4 above the chunk size 2, body of 3 bytes: chunked, nothing dropped *)
+Example c25_example_limit_above_chunk :
+  let rq := mk_rq Put false false 2 4 [1;2;3]%N Eof [] in
+  exists e, handle_write (fun _ => 0%N) rq None = (Created, Some e) /\
+            e_content e = [] /\ read_entry e = [1;2;3]%N.
+Proof. exact example_limit_above_chunk. Qed.
+
+(* the same under /etc *)
+Example c25_example_etc :
+  let rq := mk_rq Put false true 2 0 [1;2;3]%N Eof [] in
+  exists e, handle_write (fun _ => 0%N) rq None = (Created, Some e) /\ read_entry e = [1;2;3]%N.
+Proof. exact example_etc. Qed.
+
+(* append to an entry with chunk [0,3) and FileSize attribute 0 (as S3 multipart
+   completion creates): the new byte lands at offset 3 *)
+Example c25_example_append_filesize0 :
+  let e0 := {| e_size := 0; e_content := []; e_chunks := [Ck 0 3 [97;98;99]%N]; e_md5 := None |} in
+  let rq := mk_rq Put true false 4 0 [90]%N Eof [] in
+  wf_entry e0 /\
   exists e1, handle_write (fun _ => 0%N) rq (Some e0) = (Created, Some e1) /\
-             read_entry e1 = [1;2;3;4;5;6;7]%N.
-Proof. exact example_append. Qed.
+             read_entry e1 = [97;98;99;90]%N /\ e_size e1 = 4%N.
+Proof. exact example_append_filesize0. Qed.
+
+(* the reader fails after 3 bytes: reported, nothing committed *)
+Example c25_example_read_error :
+  let rq := mk_rq Put false false 2 0 [1;2;3]%N ReadErr [] in
+  request_fails rq = true /\ handle_write (fun _ => 0%N) rq None = (Failed, None).
+Proof. exact example_read_error. Qed.
 
 (* the second upload fails: reported, nothing committed *)
 Example c25_example_upload_failure :
   let rq := mk_rq Put false false 2 0 [1;2;3]%N Eof [false;true] in
-  read_err_trigger rq = false /\ request_fails rq = true /\
-  handle_write (fun _ => 0%N) rq None = (Failed, None).
+  request_fails rq = true /\ handle_write (fun _ => 0%N) rq None = (Failed, None).
 Proof. exact example_upload_failure. Qed.
+
+(* maxMB=2048 and maxMB=0 are rejected; 2047 is the largest accepted value *)
+Example c25_example_maxmb :
+  auto_chunk_size 2048 4 = None /\ auto_chunk_size 0 0 = None /\
+  auto_chunk_size 2047 4 = Some 2146435072%Z /\ auto_chunk_size 0 4 = Some 4194304%Z.
+Proof. exact example_maxmb. Qed.
